@@ -125,7 +125,9 @@ func ParsePairs(s string) [][2]string {
 // stream and answers from a script.
 type Target struct {
 	Header, Trailer metadata.MD
-	Responses       int // messages to answer before io.EOF
+	Responses       int   // messages to answer before the end of the stream
+	NoHeader        bool  // Trailers-Only: the stream's Header() stays empty, metadata comes through Trailer() only
+	Err             error // how the stream ends after Responses messages (nil = io.EOF)
 
 	mu       sync.Mutex
 	Streams  int
@@ -175,12 +177,20 @@ func (s *targetStream) Recv(ctx context.Context, m proto.Message) error {
 	s.mu.Lock()
 	defer s.mu.Unlock()
 	if s.left <= 0 {
+		if s.t.Err != nil {
+			return s.t.Err
+		}
 		return io.EOF
 	}
 	s.left--
 	return nil
 }
-func (s *targetStream) Header() metadata.MD  { return s.t.Header }
+func (s *targetStream) Header() metadata.MD {
+	if s.t.NoHeader {
+		return nil
+	}
+	return s.t.Header
+}
 func (s *targetStream) Trailer() metadata.MD { return s.t.Trailer }
 func (s *targetStream) CloseSend()           {}
 func (s *targetStream) Close()               {}
